@@ -50,7 +50,7 @@ TIME_KINDS = ["duplicate", "replay_retry", "late_removed", "slow_candidate"]
 KINDS = ["none"] + FIELD_KINDS + TIME_KINDS + ["cid_swap", "reorder", "garbage_cands", "dup_created",
                                                      "relabel_as_created", "relabel_as_extended", "fallback_exits",
                                                      "late_relay_after", "late_relay_before", "late_relay_after_nodelay",
-                                                     "malformed_as_created"]
+                                                     "malformed_as_created", "replay_create", "replay_create_subst", "replay_create_early"]
 
 
 def z(n):
@@ -770,6 +770,7 @@ class Attack:
         self.held = {}
         self.static = None       # the attacker's own static key (network attacker: a key of its own)
         self.log = []
+        self.creates, self.replies, self.subst, self.replaying = [], [], [], False
 
     def k_now(self, c=None):
         return len((c or self.circuit)._hops) + 1
@@ -869,7 +870,7 @@ class Attack:
         from ipv8.messaging.anonymization.payload import CreatedPayload, ExtendedPayload
         n = type(payload).__name__
         c = self.circuit
-        if self.pos == "network" or self.kind.startswith("late_relay") or self.kind in ("none", "fallback_exits", "malformed_as_created", "cid_swap", "reorder", "dup_created", "relabel_as_created",
+        if self.pos == "network" or self.kind.startswith("late_relay") or self.kind.startswith("replay_create") or self.kind in ("none", "fallback_exits", "malformed_as_created", "cid_swap", "reorder", "dup_created", "relabel_as_created",
                                                   "relabel_as_extended"):
             return [payload]
         if self.fired and self.kind not in ("duplicate",):
@@ -922,6 +923,12 @@ class Attack:
     # -- the wire
     def on_wire(self, net, src, dst, data):
         c = self.circuit
+        if self.kind.startswith("replay_create"):
+            if len(data) > 30 and data[22] == 0 and data[27] and data[29] == 2 and not self.replaying:
+                self.creates.append((src, dst, data))         # every create seen on any link
+            if len(data) > 30 and data[22] == 0 and data[27] and data[29] == 3 and self.replaying:
+                self.replies.append((src, dst, data))         # what a responder answers to a replayed create
+            return [(dst, data)]
         if self.kind in ("none", "fallback_exits", "relabel_as_created", "relabel_as_extended", "malformed_as_created") \
                 or len(data) < 30 or data[22] != 0:
             return [(dst, data)]
@@ -1008,6 +1015,29 @@ class Attack:
             return [(dst, data)]
         return res
 
+    def replay_creates(self, net):
+        """the circuit is READY: every create seen on a link comes again at its responder - unchanged or with the
+        attacker's own ephemeral key - from the original sender's address or from an outsider's"""
+        from ipv8.messaging.anonymization import crypto as cr
+        self.replaying = True
+        seen = [(s_, d_, x_) for s_, d_, x_ in net.net.log if len(x_) > 30 and x_[22] == 0 and x_[27] and x_[29] == 2]
+        for src, dst, data in seen:
+            try:
+                ident, nlen = struct.unpack_from("!HH", data, 30)
+                npk = data[34:34 + nlen]
+                (klen,) = struct.unpack_from("!H", data, 34 + nlen)
+            except struct.error:
+                continue
+            out = data
+            if self.kind == "replay_create_subst":
+                x, X = cr.TunnelCrypto().generate_diffie_secret()
+                out = data[:34 + nlen] + struct.pack("!H", len(X)) + X
+                self.subst.append((struct.unpack_from("!I", data, 23)[0], x, tuple(dst)))
+            frm = src if self.rng.random() < 0.5 else ("10.9.9.9", 999)
+            net.net.queue.append((frm, dst, out))
+            self.fired += 1
+            self.log.append(("wire", "create replayed to %s" % (tuple(dst),), self.kind))
+
     def extend_pending(self, net):
         at = net.attempts.get(self.circuit.circuit_id) or []
         return bool(at) and at[-1]["n_hops"] == self.k - 1 and self.circuit.unverified_hop is not None
@@ -1049,6 +1079,8 @@ def specs(ctx):
                 if kind == "fallback_exits" and not (pos == "network" and k == 2):
                     continue
                 if kind.startswith("late_relay") and not (pos == "network" and k >= 2):
+                    continue
+                if kind.startswith("replay_create") and not (pos == "network" and k == hops):
                     continue
                 relay_role = (pos == "first" and k == 2) or (pos == "middle" and k == 3)
                 if kind in ("relabel_as_created", "malformed_as_created") and not ((pos == "network" and k >= 2) or relay_role):
@@ -1117,7 +1149,16 @@ async def scenario(spec, base_seed, sweep=None):
         else:
             net.net.filter = lambda src, dst, data: atk.on_wire(net, src, dst, data)
         await net.drive()
-        if kind.startswith("late_relay"):
+        if kind.startswith("replay_create"):
+            if kind != "replay_create_early":
+                # more than unstable_timeout later (the CreatedRequestCache of every joined node has expired); pings
+                # keep the circuit alive meanwhile
+                for _ in range(13):
+                    await loop.advance(5.0)
+                    await net.drive()
+            atk.replay_creates(net)
+            await net.drive()
+        elif kind.startswith("late_relay"):
             await loop.advance(3.5)          # the originator's retry goes out (extend to the next candidate)
             await net.idle()
             if kind != "late_relay_before":
@@ -1145,6 +1186,7 @@ async def scenario(spec, base_seed, sweep=None):
                 info.setdefault("data", []).append((c.circuit_id, len(net.exits_out) > n0))
         await loop.advance(6.0)          # lets pending remove_circuit tasks pass their delay (purge events)
         await net.drive()
+        info["attacker_keys"] = attacker_exit_keys(net, atk) if kind == "replay_create_subst" else []
         info["final"] = {n: snapshot(ov) for n, ov in net.nodes.items()}
         info["path"] = path_check(net, c1) if c1.state == "READY" and c1.circuit_id in o.circuits else []
         info["state"] = (c1.state, len(c1._hops))
@@ -1154,12 +1196,42 @@ async def scenario(spec, base_seed, sweep=None):
     return net, atk, info
 
 
+def attacker_exit_keys(net, atk):
+    """the attacker replayed creates with its own ephemeral key: with the responder's created (sent to whoever the
+    create seemed to come from) it computes session keys - they must not be the keys of any exit socket"""
+    from ipv8.messaging.anonymization import crypto as cr
+    out = []
+    for cid, x, dst in atk.subst:
+        node = net.node_of(dst)
+        if node is None:
+            continue
+        for src2, _, data in atk.replies:
+            if tuple(src2) != tuple(node.my_peer.address) or struct.unpack_from("!I", data, 23)[0] != cid:
+                continue
+            try:
+                ident, klen = struct.unpack_from("!HH", data, 30)
+                Y = data[34:34 + klen]
+                shared = x.diffie_hellman(Y) + x.diffie_hellman(node.my_peer.public_key.get_crypt_pk())
+                guess = keybytes(cr.TunnelCrypto.generate_session_keys(shared))
+            except Exception:   # noqa
+                continue
+            es = node.exit_sockets.get(cid)
+            if es is not None and keybytes(es.hop.keys) == guess:
+                out.append("the exit socket of circuit %d at %s is keyed with the ephemeral key of whoever replayed the create"
+                           % (cid, node._verif_name))
+    return out
+
+
 def path_check(net, c):
     """follow the relay routes of a READY circuit from the first hop on: every route must lead to the node that
     the originator's hop list names at that position, and that node must hold the originator's keys for the hop"""
     bad = []
     node = net.by_key(c._hops[0].peer.public_key.key_to_bin())
     cid = c.circuit_id
+    if node is not None:
+        held0 = {keybytes(e.hop.keys) for e in node.exit_sockets.values()} | {keybytes(r.hop.keys) for r in node.relay_from_to.values()}
+        if keybytes(c._hops[0].keys) not in held0:
+            bad.append((False, "hop 1: %s does not hold the originator's keys for the hop" % node._verif_name))
     for i in range(1, len(c._hops)):
         if node is None:
             break
@@ -1387,6 +1459,7 @@ def oracle(net, atk, info, report):
     c1 = info.get("c1")
     if (spec[3] in ("none", "reorder", "duplicate", "dup_created", "relabel_as_created", "relabel_as_extended",
                     "fallback_exits", "late_relay_after", "late_relay_after_nodelay", "malformed_as_created")
+            or spec[3].startswith("replay_create")
             or (spec[3] in ("zero_key", "short_key") and spec[2] == 1)) and c1 is not None:
         if info["state"] != ("READY", spec[0]):
             report("honest/not-ready", "circuit not READY after an honest build (%s, state %s, %d hops)" % (spec, *info["state"]))
@@ -1409,8 +1482,13 @@ def oracle(net, atk, info, report):
                     "fallback_exits", "late_relay_after", "late_relay_after_nodelay", "late_relay_before", "slow_candidate",
                     "replay_retry")
     for wrong_node, b in info.get("path", []):
-        if wrong_node or spec[3] in honest_kinds:
+        if spec[3].startswith("replay_create"):
+            # a create seen on the wire came again after the circuit was READY: no established hop may be re-keyed
+            report("replay/create-rekeyed-established-hop", "%s (%s)" % (b, spec))
+        elif wrong_node or spec[3] in honest_kinds:
             report("path/relay-route-leads-elsewhere", "%s (%s)" % (b, spec))
+    for b in info.get("attacker_keys", []):
+        report("replay/attacker-holds-exit-keys", "%s (%s)" % (b, spec))
     # exceptions escaping the receive path (e.g. RuntimeError of a failed cell decryption) are C03/C04 matter:
     # counted in the evidence, not judged here
     info["escaped"] = len(net.net.escaped)
